@@ -8,7 +8,7 @@ from vp import core, gen
 
 PROP_ID = 'C15'
 LEVEL = 'exploration'
-BUDGET = {'quick': 2500, 'thorough': 60000}
+BUDGET = {'quick': 8000, 'thorough': 60000}
 RULE = ('Model-based histories on a MultiAntennaArray: Hypothesis draws 1..4 antennas, a delay vector (omitted / '
         'all-zero / unsorted / repeated / up to 40; list, tuple, numpy ints), 1..2 polarisations and 1..8 ops '
         '(get(n) with n > max delay, set_time, add_time, reset_start). Mode "closed": every antenna stream and the '
